@@ -65,6 +65,12 @@ def _GenerateConstant(cv: LinearIR.ConstantValue) -> WebAssembly.Instruction:
     t = cv.Type
     if t.IsScalar():
         if isinstance(t, LinearIR.IntegerType):
+            # i32.const takes a signed 32 bit immediate; anything else would
+            # be written as a LEB128 number no engine accepts
+            if not -(2**31) <= cv.Value < 2**31:
+                raise RuntimeError(
+                    f"Integer constant out of range for WebAssembly: {cv.Value}"
+                )
             return WebAssembly.Instruction(
                 WebAssembly.opcodes["i32.const"], (cv.Value,)
             )
